@@ -22,7 +22,7 @@ WIRE_ASSUME = [
     "bzip2 and AES-GCM are opaque layers (round trip and framing only)",
 ]
 
-MODELS = {"wire": ("WireMC.tla", "WireMC_%s.cfg"), "evo": ("Evo.tla", "Evo_%s.cfg")}
+MODELS = {"wire": ("WireMC.tla", "WireMC_%s.cfg"), "evo": ("Evo.tla", "Evo_%s.cfg"), "mut": ("MutMC.tla", "MutMC_%s.cfg")}
 _tlc_cache = {}
 
 def model_records(model, tier, fresh):
@@ -67,7 +67,7 @@ def wire_pipeline(tier, replay=None):
         open(recs, "w").write(json.dumps(rec) + "\n")
         stats = {"generated": 0, "distinct": 0}
     res = recs + ".res"
-    vlib.run_bin(binp, ["replay", recs, res], env={"WIRE_ALLMODES_EVERY": "1" if tier == "thorough" else "3"})
+    vlib.run_bin_resilient(binp, ["replay"], recs, res, "c01.died", env={"WIRE_ALLMODES_EVERY": "1" if tier == "thorough" else "3"})
     return stats, recs, res, sum(1 for _ in open(recs))
 
 def wire_check(prop_id, tier, replay, prefixes, level_text):
@@ -137,7 +137,7 @@ def evo_check(prop_id, tier, replay, mode, prefix, level_text):
                 if '"mode":"%s"' % mode in line:
                     o.write(line)
     res = sel + ".res"
-    vlib.run_bin(binp, ["evo", sel, res])
+    vlib.run_bin_resilient(binp, ["evo"], sel, res, prefix + "died")
     records = open(sel).read().splitlines()
     evals, nontrivial, hist, samples = 0, set(), set(), []
     for line in open(res):
@@ -322,7 +322,7 @@ def c04(p, tier, replay):
     if not replay:
         recs = built["wire"][0]
         res = recs + ".res"
-        vlib.run_bin(binp, ["replay", recs, res], env={"WIRE_ALLMODES_EVERY": "1000000"})
+        vlib.run_bin_resilient(binp, ["replay"], recs, res, "c01.died", env={"WIRE_ALLMODES_EVERY": "1000000"})
         records = open(recs).read().splitlines()
         for line in open(res):
             rr = json.loads(line)
@@ -421,3 +421,115 @@ def c17(p, tier, replay):
     return v.finish("model_checking", cov, [
         "abstract trees: up to 3 children per node, depth <= 3, keys {a,b} with duplicates; command histories of bounded length (MaxHist)",
         "length clause is checked on the boundary values of the wire catalogue only"])
+
+
+# ------------------------------------------------------------------------------------------------
+# C06 malformed input, C07 truncation
+# ------------------------------------------------------------------------------------------------
+def mut_observe(tier, replay, select):
+    """MutMC behaviours -> real reader -> observations -> MutTrace verdicts.  returns (stats, observations, verdict map)"""
+    built, binp = family_build(tier, ["mut"])
+    recs, stats = built["mut"]
+    sel = os.path.join(WORK, "mut_%s.sel" % tier)
+    if replay:
+        open(sel, "w").write(json.dumps(json.load(open(replay))["record"]["input"]) + "\n")
+        stats = {"generated": 0, "distinct": 0}
+    else:
+        with open(sel, "w") as o:
+            for line in open(recs):
+                if select(line):
+                    o.write(line)
+    res = sel + ".res"
+    vlib.run_bin_resilient(binp, ["garbage"], sel, res, "died")
+    inputs = open(sel).read().splitlines()
+    obs_path = os.path.join(WORK, "mut_%s.obs" % tier)
+    observations = []
+    with open(obs_path, "w") as o:
+        for line in open(res):
+            rr = json.loads(line)
+            rec = json.loads(inputs[rr["i"]])
+            ob = rr["obs"] or {"real": "died", "msg": rr["fails"][0]["detail"], "rpos": 0, "reser": [], "oom": "alloc" in rr["fails"][0]["detail"]}
+            if ob["real"] == "tool":
+                raise ToolError("harness: " + ob["msg"])
+            full = {"t": rec["t"], "ver": rec["ver"], "inp": rec["inp"], "mut": rec["mut"], "ok": rec["ok"], "err": rec["err"],
+                    "pos": rec["pos"], "real": ob["real"], "msg": ob["msg"], "rpos": ob["rpos"], "reser": ob["reser"], "oom": ob["oom"]}
+            observations.append(full)
+            o.write(json.dumps(full) + "\n")
+    r = vlib.run_tlc("MutTrace.tla", "MutTrace.cfg", "muttrace_" + tier, workers=8, timeout=3000,
+                     extra_env={"OBS": obs_path}, java_opts="-Xss1g -Xmx12g")
+    if r["violated"]:
+        raise ToolError("MutTrace: unexpected TLC error (see %s)" % r["out"])
+    rej = os.path.join(WORK, "mut_%s.rej" % tier)
+    vlib.printed_json(r["out"], rej)
+    verdicts = {}
+    for line in open(rej):
+        j = json.loads(line)
+        verdicts[j["i"] - 1] = j["verdict"]
+    return stats, r["stats"], observations, verdicts
+
+def mut_check(prop_id, tier, replay, select, check_prefix, text, extra=None):
+    v = Verdict(prop_id, tier)
+    stats, tstats, observations, verdicts = mut_observe(tier, replay, select)
+    nontrivial = set()
+    for i, o in enumerate(observations):
+        if o["mut"] != "none":
+            nontrivial.add((json.dumps(o["t"], sort_keys=True), json.dumps(o["inp"])))
+        if i in verdicts:
+            v.report(check_prefix + verdicts[i].split(":")[0], {"t": o["t"], "mut": o["mut"], "inp": o["inp"], "msg": o["msg"]},
+                     "%s input=%s (%s) spec=%s real=%s %s" % (vlib.show(o["t"]), o["inp"], o["mut"],
+                        "ok" if o["ok"] else "err:" + o["err"], o["real"], o["msg"][:120]), {"input": {k: o[k] for k in ("t", "ver", "inp", "mut", "ok", "err", "pos")}, "observed": o})
+    n_extra = 0
+    if extra:
+        n_extra = extra(v)
+    samples = [{"type": vlib.show(o["t"]), "mutation": o["mut"], "input": o["inp"], "spec_outcome": "ok" if o["ok"] else o["err"], "real_outcome": o["real"]}
+               for o in observations if o["mut"] in ("byte", "over8", "cut") and len(o["inp"]) > 4][:4]
+    cov = {"states": stats["distinct"] + tstats["distinct"], "transitions": stats["generated"] + tstats["generated"],
+           "traces_validated_against_impl": len(observations),
+           "evaluations": len(observations) + n_extra, "distinct_nontrivial": len(nontrivial),
+           "rule": "MutMC: subject type x up to 3 values x {every cut, every byte x 6 replacement values, every 8-byte window x 5 length patterns, "
+                   "append} plus all byte strings of length <= 3 over {0,1,2,255}; non-trivial = the input differs from a valid encoding; distinct by (type, input)",
+           "samples": samples, "exhaustive": not replay, "explanation": text}
+    return v.finish("model_checking", cov, WIRE_ASSUME + [
+        "undefined behaviour without a functional symptom is outside the technique's reach: the check observes outcomes "
+        "(value / error / panic / process death) and validates returned values by re-serialising them, it does not run a sanitizer",
+        "allocation-failure aborts on absurd declared lengths are excused, as the property states"])
+
+@prop("C06")
+def c06(p, tier, replay):
+    return mut_check(p, tier, replay, lambda line: True, "c06.",
+        "TLC (MutMC) enumerates malformed inputs per subject type and fixes the format's outcome with the reader oracle; the REAL reader is "
+        "run on each input and TLC (MutTrace) validates every observation: no panic / abort (except genuine allocation failure), nothing "
+        "accepted that the format rejects, every returned value re-serialises to a canonical valid encoding no longer than the input")
+
+def _c07_prefixes(tier):
+    def run(v):
+        built, binp = family_build(tier, ["wire"])
+        recs = built["wire"][0]
+        sel = os.path.join(WORK, "c07_%s.sel" % tier)
+        step = 1 if tier == "thorough" else 7
+        with open(sel, "w") as o:
+            for n, line in enumerate(open(recs)):
+                if n % step == 0 and len(line) < 6000:
+                    o.write(line)
+        res = sel + ".res"
+        vlib.run_bin_resilient(binp, ["prefixes"], sel, res, "c07.prefix.died")
+        records = open(sel).read().splitlines()
+        cuts = 0
+        for line in open(res):
+            rr = json.loads(line)
+            rec = json.loads(records[rr["i"]])
+            cuts += (rr["obs"] or {}).get("cuts", 0)
+            for f in rr["fails"]:
+                if f["check"].startswith("tool."):
+                    raise ToolError("harness: " + f["check"])
+                v.report(f["check"], {"t": rec["t"]}, "%s :: %s" % (vlib.show(rec["t"]), f["detail"]), rec)
+        return cuts
+    return run
+
+@prop("C07")
+def c07(p, tier, replay):
+    return mut_check(p, tier, replay, lambda line: '"mut":"cut"' in line or '"mut":"none"' in line, "c07.payload.",
+        "TLC proves on the model that every strict prefix of every encoding is rejected (WireMC!PrefixRejected, MutMC!CutRejected); every "
+        "cut of MutMC is run on the real reader and validated by MutTrace; in addition every strict prefix of the real plain, schema-less, "
+        "bzip2 and encrypted files of a sample of the wire catalogue is loaded: error, or (bzip2 trailer only) the equal value",
+        extra=None if replay else _c07_prefixes(tier))
